@@ -26,6 +26,12 @@ fn apply_edit(bytes: &[u8], edit: &Value) -> Vec<u8> {
             v[at] ^= edit["mask"].as_u64().unwrap_or(1) as u8;
         }
         "truncate" => v.truncate(edit["at"].as_u64().unwrap() as usize),
+        // an altered byte AND a cut further on (the quantifier is a product: corruption x truncation)
+        "flipcut" => {
+            let at = edit["at"].as_u64().unwrap() as usize;
+            v[at] ^= edit["mask"].as_u64().unwrap_or(1) as u8;
+            v.truncate(edit["cut"].as_u64().unwrap() as usize);
+        }
         _ => {}
     }
     v
@@ -183,6 +189,23 @@ pub fn run(ctx: &Ctx) -> Report {
                     if at < b.bytes.len() { edits.push(json!({"kind":"flip","at":at,"mask":0x10})); }
                 }
                 edits.push(json!({"kind":"truncate","at": lo + (hi - lo) / 3 + 1}));
+            }
+        }
+        // a full chunk (index >= 1) altered in its payload, the stream cut inside that chunk's tag so that only a few
+        // tag bytes are left: the chunk must fail whatever the bytes left say
+        if ctx.thorough || i < 4 {
+            for k in 1..nchunks {
+                let lo = h + k * step;
+                if lo + step > b.bytes.len() { continue; }
+                for r in [1usize, 2, TAG - 1] {
+                    let cut = lo + CONSTS.chunk + r;
+                    let n_at = if CONSTS.scaled { CONSTS.chunk } else { 24 };
+                    for q in 0..n_at {
+                        let at = lo + (q * 7919) % CONSTS.chunk;
+                        let masks: &[u8] = if r == 1 { &[1, 2, 4, 8, 16, 32, 64, 128] } else { &[1, 0x80] };
+                        for m in masks { edits.push(json!({"kind":"flipcut","at":at,"mask":m,"cut":cut})); }
+                    }
+                }
             }
         }
         rep.count(&format!("layers:{}", cfg.layers_name()));
